@@ -10,6 +10,7 @@ import SharkVerif.Gen.McTables
 import SharkVerif.Model.McSmo
 import SharkVerif.Model.McSolve
 import SharkVerif.Model.McSimplex
+import SharkVerif.Model.McBias
 import SharkVerif.Model.McLinear
 import Driver.C16L
 open SharkVerif.Mc SharkVerif.Gen
@@ -94,6 +95,17 @@ def tableInfo (f : String) (c : Nat) : Option (Nat × (Nat → Row α)) :=
   match (McTables.table (f ++ "_M") c : Option (Sparse α)) with
   | some t => some (t.width, fun r => t.row r)
   | none => none
+
+/-- the `nu` table of the family (for `performBiasUpdate`) -/
+def nuInfo (f : String) (c : Nat) : Nat → Row α :=
+  match (McTables.table (f ++ "_nu") c : Option (Sparse α)) with
+  | some t => fun r => t.row r
+  | none => fun _ => Row.empty
+
+/-- `biasupd n1 s1 n2 s2 ...`: the bias step, one dyadic rational per class -/
+def parseStep (a : List Int) : Nat → α :=
+  let arr := a.toArray
+  fun c => Scal.ofIntShift (arr.getD (2 * c) 0) (arr.getD (2 * c + 1) 0).toNat
 
 /-- `box F c n Cnum Cshift shrinking kshift | labels(n) lin(n*P) K(n*n)` (all as one flat list of integers) -/
 def mkBox (f : String) (a : List Int) : Option (McBox α) :=
@@ -262,6 +274,10 @@ structure St where
   xf : Option (McSx Float) := none
   xq : Option (McSx Rat) := none
   ml : C16L.St := {}
+  nuf : Nat → Row Float := fun _ => Row.empty
+  nuq : Nat → Row Rat := fun _ => Row.empty
+  xnuf : Nat → Row Float := fun _ => Row.empty
+  xnuq : Nat → Row Rat := fun _ => Row.empty
   ds : DataSet := {}
   lin : Option LinPair := none
 
@@ -359,15 +375,31 @@ def step (st : St) (line : String) : St × String :=
     | none => (st, "bad-op")
     | some a =>
       match (mkSx f a : Option (McSx Float)), (mkSx f a : Option (McSx Rat)) with
-      | some xf, some xq => ({ st with xf := some xf, xq := some xq }, dumpSx xf ++ (if sameStateX xf xq then " #rat=ok" else " #rat=diff"))
+      | some xf, some xq => ({ st with xf := some xf, xq := some xq, xnuf := nuInfo f (a.headD 0).toNat, xnuq := nuInfo f (a.headD 0).toNat }, dumpSx xf ++ (if sameStateX xf xq then " #rat=ok" else " #rat=diff"))
       | _, _ => (st, "bad-op")
   | "box" :: f :: rest =>
     match parseInts rest with
     | none => (st, "bad-op")
     | some a =>
       match (mkBox f a : Option (McBox Float)), (mkBox f a : Option (McBox Rat)) with
-      | some bf, some bq => ({ st with bf := some bf, bq := some bq }, dumpBox bf ++ (if sameState bf bq then " #rat=ok" else " #rat=diff"))
+      | some bf, some bq => ({ st with bf := some bf, bq := some bq, nuf := nuInfo f (a.headD 0).toNat, nuq := nuInfo f (a.headD 0).toNat }, dumpBox bf ++ (if sameState bf bq then " #rat=ok" else " #rat=diff"))
       | _, _ => (st, "bad-op")
+  | "biasupd" :: rest =>
+    match parseInts rest, st.bf, st.bq with
+    | some a, some bf, some bq =>
+      if a.length != 2 * bf.c then (st, "bad-op") else
+      let bf' := normalize (bf.performBiasUpdate st.nuf (parseStep a))
+      let bq' := normalize (bq.performBiasUpdate st.nuq (parseStep a))
+      ({ st with bf := some bf', bq := some bq' }, dumpBox bf' ++ (if sameState bf' bq' then " #rat=ok" else " #rat=diff"))
+    | _, _, _ => (st, "bad-op")
+  | "xbiasupd" :: rest =>
+    match parseInts rest, st.xf, st.xq with
+    | some a, some xf, some xq =>
+      if a.length != 2 * xf.b.c then (st, "bad-op") else
+      let xf' := normalizeX (xf.performBiasUpdate st.xnuf (parseStep a))
+      let xq' := normalizeX (xq.performBiasUpdate st.xnuq (parseStep a))
+      ({ st with xf := some xf', xq := some xq' }, dumpSx xf' ++ (if sameStateX xf' xq' then " #rat=ok" else " #rat=diff"))
+    | _, _, _ => (st, "bad-op")
   | op :: rest =>
     if op.startsWith "x" then
       match parseInts rest, st.xf, st.xq with
